@@ -1139,23 +1139,21 @@ theorem sectionPhase_spec (cell : St) (cache : Option Adj) (root lim fuel k : Na
     (hclash : ∀ g ∈ cell.groups, ∀ n ∈ newGroups cell.groups.length t, g.id ≠ n.id) :
     ∃ segs', sectionPhase cell cache root lim fuel = .ok ⟨segs', cell.groups ++ newGroups cell.groups.length t⟩ ∧
       Refines cell.segs segs' ∧ HasProx segs' root ∧ ∀ ch ∈ rest t, HasProx segs' ch.1 := by
-  have hadj : (match cache with | some a => a | none => adjacency cell.segs) = adjacency cell.segs := by
+  subst hroot
+  have hadj : cache.getD (adjacency cell.segs) = adjacency cell.segs := by
     rcases hc with rfl | rfl <;> rfl
-  obtain ⟨p0, hp0⟩ := hap root (hroot ▸ id_mem_preorder t)
+  obtain ⟨p0, hp0⟩ := hap t.id (id_mem_preorder t)
   obtain ⟨s, hs⟩ := actualProximal_ok_getSegment hp0
-  have hsid : s.id = root := (getSegment_some hs).1
+  have hsid : s.id = t.id := (getSegment_some hs).1
   obtain ⟨lim', rfl⟩ : ∃ l, lim = l + 1 := ⟨lim - 1, by omega⟩
-  have hp1 : actualProximal cell.segs (lim' + 1) root = .ok p0 :=
-    actualProximal_mono _ k root p0 hp0 _ (by omega)
+  have hp1 : actualProximal cell.segs (lim' + 1) t.id = .ok p0 :=
+    actualProximal_mono _ k t.id p0 hp0 _ (by omega)
   -- the root's proximal
-  obtain ⟨segs1, he1, href1, hhp1⟩ : ∃ segs1,
-      (if s.prox = none ∧ s.parent ≠ none then
-        match actualProximal cell.segs (lim' + 1) s.id with
-        | .ok p => Except.ok (setProx cell.segs root p)
-        | .error e => .error e
-      else .ok cell.segs : Except Err (List Seg)) = .ok segs1 ∧ Refines cell.segs segs1 ∧ HasProx segs1 root := by
+  obtain ⟨segs1, he1, href1, hhp1⟩ : ∃ segs1, rootProx cell.segs (lim' + 1) s t.id = .ok segs1 ∧
+      Refines cell.segs segs1 ∧ HasProx segs1 t.id := by
+    unfold rootProx
     by_cases hfix : s.prox = none ∧ s.parent ≠ none
-    · refine ⟨setProx cell.segs root p0, by simp [hfix, hsid, hp1], (Refines.refl _).step hnd hp1,
+    · refine ⟨setProx cell.segs t.id p0, by simp [hfix, hsid, hp1], (Refines.refl _).step hnd hp1,
         HasProx.setProx_self hs p0⟩
     · refine ⟨cell.segs, by rw [if_neg hfix], Refines.refl _, ?_⟩
       cases hpx : s.prox with
@@ -1170,7 +1168,7 @@ theorem sectionPhase_spec (cell : St) (cache : Option Adj) (root lim fuel k : Na
           | zero => simp [actualProximal] at hp0
           | succ k' => exact ⟨k', rfl⟩
         simp [actualProximal, hs, hpx, hpar] at hp0
-  have hname : genName cell.groups.length s.id = genName cell.groups.length t.id := by rw [hsid, hroot]
+  have hname : genName cell.groups.length s.id = genName cell.groups.length t.id := by rw [hsid]
   have hfresh : ∀ g ∈ cell.groups, g.id ≠ genName cell.groups.length t.id := by
     intro g hg
     exact hclash g hg ⟨genName cell.groups.length t.id, some sectionNlx, first t, []⟩ (by simp [newGroups])
@@ -1189,10 +1187,518 @@ theorem sectionPhase_spec (cell : St) (cache : Option Adj) (root lim fuel k : Na
       · exact hidsnd.1)
     hidsnd.2
   rw [freshGroup_extend] at h1
-  refine ⟨segs2, ?_, h2, h3 root hhp1, h4⟩
+  refine ⟨segs2, ?_, h2, h3 t.id hhp1, h4⟩
   unfold sectionPhase
-  simp only [hadj, hs, he1, hname, addGroup_fresh hfresh]
-  rw [← hroot, h1]
+  simp only [hadj, hs, hname, addGroup_fresh hfresh]
+  rw [he1]
+  simp only
+  rw [h1]
   simp [newGroups, freshGroup]
+
+/-! ### reorder pass -/
+
+theorem eraseIdx_append_perm : ∀ (gs : List Group) (i : Nat) (g : Group), gs[i]? = some g →
+    (gs.eraseIdx i ++ [g]).Perm gs
+  | [], _, _, h => by simp at h
+  | a :: r, 0, g, h => by
+    simp only [List.getElem?_cons_zero, Option.some.injEq] at h
+    subst h
+    simp
+  | a :: r, i + 1, g, h => by
+    simp only [List.getElem?_cons_succ] at h
+    simpa using (eraseIdx_append_perm r i g h).cons a
+
+theorem moveToEnd_perm (gs : List Group) (name : String) : (moveToEnd gs name).Perm gs := by
+  unfold moveToEnd
+  cases findGroup gs name with
+  | none => exact .refl _
+  | some i =>
+    simp only
+    cases h : gs[i]? with
+    | none => exact .refl _
+    | some g => exact eraseIdx_append_perm gs i g h
+
+theorem reorderGroups_perm (gs : List Group) : (reorderGroups gs).Perm gs := by
+  unfold reorderGroups
+  generalize defaultGroups = ds
+  induction ds generalizing gs with
+  | nil => exact .refl _
+  | cons d ds ih => exact (ih (moveToEnd gs d)).trans (moveToEnd_perm gs d)
+
+/-! ### optimise pass -/
+
+/-- a group that `optimise_segment_group` leaves as it is: no includes, no repeated member -/
+def Clean (g : Group) : Prop := g.includes = [] ∧ g.members.Nodup
+
+theorem dedup_nodup : ∀ {l : List Nat}, l.Nodup → dedup l = l
+  | [], _ => rfl
+  | a :: l, h => by
+    simp only [List.nodup_cons] at h
+    simp only [dedup, dedup_nodup h.2, List.cons.injEq, true_and]
+    rw [List.filter_eq_self]
+    intro b hb
+    simp only [bne_iff_ne, ne_eq]
+    rintro rfl
+    exact h.1 hb
+
+theorem optGroup_clean (oi : List Group → Group → Group) (gs : List Group) {g : Group} (h : Clean g) :
+    optGroup oi gs g = g := by
+  obtain ⟨h1, h2⟩ := h
+  cases g
+  simp only at h1 h2
+  subst h1
+  simp [optGroup, dedup_nodup h2]
+
+/-- the unmodelled part of `optimise_segment_group` (groups with includes) keeps the group's id -/
+def IdPreserving (oi : List Group → Group → Group) : Prop := ∀ gs g, (oi gs g).id = g.id
+
+def OptRel (g g' : Group) : Prop := g'.id = g.id ∧ (Clean g → g' = g)
+
+theorem OptRel.refl (g : Group) : OptRel g g := ⟨rfl, fun _ => rfl⟩
+
+theorem OptRel.trans {a b c : Group} (h1 : OptRel a b) (h2 : OptRel b c) : OptRel a c := by
+  refine ⟨h2.1.trans h1.1, fun hc => ?_⟩
+  have e := h1.2 hc
+  subst e
+  exact h2.2 hc
+
+theorem optGroup_rel {oi : List Group → Group → Group} (hoi : IdPreserving oi) (gs : List Group) (g : Group) :
+    OptRel g (optGroup oi gs g) := by
+  refine ⟨?_, fun h => optGroup_clean oi gs h⟩
+  unfold optGroup
+  simp only
+  split
+  · rfl
+  · rw [hoi]
+
+theorem rel2_self {α : Type} {R : α → α → Prop} (hr : ∀ a, R a a) : ∀ l : List α, Rel2 R l l
+  | [] => .nil
+  | a :: l => .cons (hr a) (rel2_self hr l)
+
+theorem rel2_modifyAt {R : Group → Group → Prop} (hr : ∀ g, R g g) {f : Group → Group} (hf : ∀ g, R g (f g)) :
+    ∀ (gs : List Group) (i : Nat), Rel2 R gs (modifyAt gs i f)
+  | [], _ => .nil
+  | g :: r, 0 => .cons (hf g) (rel2_self hr r)
+  | g :: r, i + 1 => .cons (hr g) (rel2_modifyAt hr hf r i)
+
+theorem rel2_trans {α : Type} {R : α → α → Prop} (ht : ∀ a b c, R a b → R b c → R a c) :
+    ∀ {a b c : List α}, Rel2 R a b → Rel2 R b c → Rel2 R a c := by
+  intro a b c h1
+  induction h1 generalizing c with
+  | nil => intro h2; exact h2
+  | cons hab _ ih =>
+    intro h2
+    cases h2 with
+    | cons hbc hr2 => exact .cons (ht _ _ _ hab hbc) (ih hr2)
+
+theorem rel2_mono {α : Type} {R S : α → α → Prop} (h : ∀ a b, R a b → S a b) :
+    ∀ {l l' : List α}, Rel2 R l l' → Rel2 S l l' := by
+  intro l l' hr
+  induction hr with
+  | nil => exact .nil
+  | cons hab _ ih => exact .cons (h _ _ hab) ih
+
+theorem rel2_length {α : Type} {R : α → α → Prop} {l l' : List α} (h : Rel2 R l l') : l'.length = l.length := by
+  induction h with
+  | nil => rfl
+  | cons _ _ ih => simp [ih]
+
+theorem rel2_ids {gs gs' : List Group} (h : Rel2 OptRel gs gs') : gs'.map (·.id) = gs.map (·.id) := by
+  induction h with
+  | nil => rfl
+  | cons hab _ ih => simp [hab.1, ih]
+
+theorem rel2_append_split {α : Type} {R : α → α → Prop} : ∀ (a b : List α) {l' : List α}, Rel2 R (a ++ b) l' →
+    ∃ a' b', l' = a' ++ b' ∧ Rel2 R a a' ∧ Rel2 R b b'
+  | [], b, l', h => ⟨[], l', rfl, .nil, h⟩
+  | x :: a, b, l', h => by
+    cases h with
+    | cons hx hr =>
+      obtain ⟨a', b', rfl, h1, h2⟩ := rel2_append_split a b hr
+      exact ⟨_ :: a', b', rfl, .cons hx h1, h2⟩
+
+theorem rel2_perm {α : Type} {R : α → α → Prop} {l1 l2 : List α} (hp : l1.Perm l2) :
+    ∀ l1', Rel2 R l1 l1' → ∃ l2', Rel2 R l2 l2' ∧ l1'.Perm l2' := by
+  induction hp with
+  | nil => intro l1' h; cases h; exact ⟨[], .nil, .refl _⟩
+  | cons x _ ih =>
+    intro l1' h
+    cases h with
+    | cons hx hr =>
+      obtain ⟨b', h1, h2⟩ := ih _ hr
+      exact ⟨_ :: b', .cons hx h1, h2.cons _⟩
+  | swap x y l =>
+    intro l1' h
+    cases h with
+    | cons hy hr =>
+      cases hr with
+      | cons hx hr' => exact ⟨_ :: _ :: _, .cons hx (.cons hy hr'), .swap _ _ _⟩
+  | trans _ _ ih1 ih2 =>
+    intro l1' h
+    obtain ⟨l2', h1, h2⟩ := ih1 _ h
+    obtain ⟨l3', h3, h4⟩ := ih2 _ h1
+    exact ⟨l3', h3, h2.trans h4⟩
+
+theorem rel2_clean_eq : ∀ {l l' : List Group}, (∀ g ∈ l, Clean g) → Rel2 OptRel l l' → l' = l := by
+  intro l l' hc h
+  induction h with
+  | nil => rfl
+  | cons hab _ ih =>
+    rw [hab.2 (hc _ (by simp)), ih (fun g hg => hc g (by simp [hg]))]
+
+theorem findGroup_some {gs : List Group} {name : String} (hne : name ≠ "") (h : name ∈ gs.map (·.id)) :
+    ∃ i, findGroup gs name = some i := by
+  unfold findGroup
+  rw [if_neg hne]
+  cases hf : gs.findIdx? (fun g => g.id == name) with
+  | some i => exact ⟨i, rfl⟩
+  | none =>
+    rw [List.findIdx?_eq_none_iff] at hf
+    obtain ⟨g, hg, rfl⟩ := List.mem_map.1 h
+    have := hf g hg
+    simp at this
+
+theorem optimiseAll_spec {oi : List Group → Group → Group} (hoi : IdPreserving oi) :
+    ∀ (ns : List String) (gs : List Group), (∀ n ∈ ns, n ≠ "" ∧ n ∈ gs.map (·.id)) →
+      ∃ gs', optimiseAll oi gs ns = .ok gs' ∧ Rel2 OptRel gs gs'
+  | [], gs, _ => ⟨gs, rfl, rel2_self OptRel.refl gs⟩
+  | n :: ns, gs, h => by
+    obtain ⟨i, hi⟩ := findGroup_some (h n (by simp)).1 (h n (by simp)).2
+    have h1 : Rel2 OptRel gs (modifyAt gs i (optGroup oi gs)) :=
+      rel2_modifyAt OptRel.refl (optGroup_rel hoi gs) gs i
+    obtain ⟨gs', h2, h3⟩ := optimiseAll_spec hoi ns (modifyAt gs i (optGroup oi gs)) (by
+      intro m hm
+      rw [rel2_ids h1]
+      exact h m (by simp [hm]))
+    refine ⟨gs', ?_, rel2_trans (R := OptRel) (fun _ _ _ hab hbc => OptRel.trans hab hbc) h1 h3⟩
+    simp only [optimiseAll, optimiseOne, hi, h2]
+
+/-! ### the new groups are clean -/
+
+theorem flat_nodup_mem : ∀ {chs : List (Nat × List Nat)}, (flat chs).Nodup → ∀ ch ∈ chs, ch.2.Nodup
+  | [], _, ch, hc => by cases hc
+  | x :: a, h, ch, hc => by
+    simp only [flat, List.map_cons, List.flatten_cons, List.nodup_append] at h
+    rcases List.mem_cons.1 hc with rfl | hc
+    · exact h.1
+    · exact flat_nodup_mem (chs := a) h.2.1 ch hc
+
+theorem mem_mkFresh {g : Group} : ∀ {chs : List (Nat × List Nat)} {L : Nat}, g ∈ mkFresh L chs →
+    ∃ ch ∈ chs, ∃ L', g = freshAt L' ch
+  | [], _, h => by simp [mkFresh] at h
+  | x :: a, L, h => by
+    simp only [mkFresh, List.mem_cons] at h
+    rcases h with rfl | h
+    · exact ⟨x, by simp, L, rfl⟩
+    · obtain ⟨ch, hc, L', e⟩ := mem_mkFresh h
+      exact ⟨ch, by simp [hc], L', e⟩
+
+/-- members of a new group: the first chain, or one of the later chains -/
+theorem newGroups_members {G0 : Nat} {t : Tree} {n : Group} (h : n ∈ newGroups G0 t) :
+    n.nlx = some sectionNlx ∧ n.includes = [] ∧ (n.members = first t ∨ ∃ ch ∈ rest t, n.members = ch.2) := by
+  simp only [newGroups, List.mem_cons] at h
+  rcases h with rfl | h
+  · exact ⟨rfl, rfl, Or.inl rfl⟩
+  · obtain ⟨ch, hc, L', rfl⟩ := mem_mkFresh h
+    exact ⟨rfl, rfl, Or.inr ⟨ch, hc, rfl⟩⟩
+
+theorem newGroups_clean {G0 : Nat} {t : Tree} (hpre : (preorder t).Nodup) : ∀ n ∈ newGroups G0 t, Clean n := by
+  intro n hn
+  obtain ⟨_, hi, hm⟩ := newGroups_members hn
+  rw [← first_rest_flat t, List.nodup_append] at hpre
+  refine ⟨hi, ?_⟩
+  rcases hm with hm | ⟨ch, hc, hm⟩
+  · rw [hm]; exact hpre.1
+  · rw [hm]; exact flat_nodup_mem hpre.2.1 ch hc
+
+/-! ### `run` -/
+
+/-- how a pre-existing group `g` relates to what the call leaves in its place: same id always; the very same
+    group when optimisation is off, or when the group is `Clean` -/
+def OldRel (optimise : Bool) (g g' : Group) : Prop := g'.id = g.id ∧ ((optimise = false ∨ Clean g) → g' = g)
+
+theorem run_spec {oi : List Group → Group → Group} (hoi : IdPreserving oi)
+    (cell : St) (cache : Option Adj) (root : Nat) (reorder optimise : Bool) (lim fuel k : Nat) (t : Tree)
+    (hc : FreshCache cell cache)
+    (hnd : (cell.segs.map (·.id)).Nodup) (hr : Repr (adjacency cell.segs) t) (hroot : t.id = root)
+    (hpre : (preorder t).Nodup) (hfuel : need t ≤ fuel) (hlim : nest t + k + 1 ≤ lim)
+    (hap : ∀ x ∈ preorder t, ∃ p, actualProximal cell.segs k x = .ok p)
+    (hclash : ∀ g ∈ cell.groups, ∀ n ∈ newGroups cell.groups.length t, g.id ≠ n.id)
+    (hne : ∀ g ∈ cell.groups, g.id ≠ "") :
+    ∃ segs' gs' olds', run oi cell cache root reorder optimise lim fuel = .ok ⟨segs', gs'⟩ ∧
+      Refines cell.segs segs' ∧ HasProx segs' root ∧ (∀ ch ∈ rest t, HasProx segs' ch.1) ∧
+      Rel2 (OldRel optimise) cell.groups olds' ∧
+      gs'.Perm (olds' ++ newGroups cell.groups.length t) ∧
+      (reorder = false → gs' = olds' ++ newGroups cell.groups.length t) := by
+  obtain ⟨segs', h1, h2, h3, h4⟩ := sectionPhase_spec cell cache root lim fuel k t hc hnd hr hroot hpre hfuel hlim hap hclash
+  cases optimise with
+  | false =>
+    refine ⟨segs', _, cell.groups, by simp only [run, h1]; rfl, h2, h3, h4,
+      rel2_self (fun g => ⟨rfl, fun _ => rfl⟩) _, ?_, ?_⟩
+    · cases reorder with
+      | false => exact .refl _
+      | true => exact reorderGroups_perm _
+    · intro hre; subst hre; rfl
+  | true =>
+    have hnames : ∀ gs1 : List Group, gs1.Perm (cell.groups ++ newGroups cell.groups.length t) →
+        ∀ n ∈ gs1.map (·.id), n ≠ "" ∧ n ∈ gs1.map (·.id) := by
+      intro gs1 hp n hn
+      refine ⟨?_, hn⟩
+      obtain ⟨g, hg, rfl⟩ := List.mem_map.1 hn
+      have := hp.subset hg
+      rcases List.mem_append.1 this with ho | hnew
+      · exact hne g ho
+      · have : g.id ∈ (newGroups cell.groups.length t).map (·.id) := List.mem_map.2 ⟨g, hnew, rfl⟩
+        rw [newGroups_ids] at this
+        rcases List.mem_cons.1 this with e | e
+        · rw [e]; exact genName_ne_empty _ _
+        · obtain ⟨n', h', _, e'⟩ := mem_names e
+          rw [e']; exact genName_ne_empty _ _
+    have hsplit : ∀ l', Rel2 OptRel (cell.groups ++ newGroups cell.groups.length t) l' →
+        ∃ olds', l' = olds' ++ newGroups cell.groups.length t ∧ Rel2 (OldRel true) cell.groups olds' := by
+      intro l' hl
+      obtain ⟨a', b', rfl, ha, hb⟩ := rel2_append_split _ _ hl
+      rw [rel2_clean_eq (newGroups_clean hpre) hb]
+      exact ⟨a', rfl, rel2_mono (fun g g' hg => ⟨hg.1, fun hh => hg.2 (by simpa using hh)⟩) ha⟩
+    cases reorder with
+    | false =>
+      obtain ⟨gs2, g1, g2⟩ := optimiseAll_spec hoi _ _ (hnames _ (.refl _))
+      obtain ⟨olds', rfl, ho⟩ := hsplit gs2 g2
+      refine ⟨segs', _, olds', ?_, h2, h3, h4, ho, .refl _, fun _ => rfl⟩
+      simp only [run, h1, Bool.false_eq_true, ↓reduceIte, g1]
+    | true =>
+      have hp := reorderGroups_perm (cell.groups ++ newGroups cell.groups.length t)
+      obtain ⟨gs2, g1, g2⟩ := optimiseAll_spec hoi _ _ (hnames _ hp)
+      obtain ⟨l', hl1, hl2⟩ := rel2_perm hp gs2 g2
+      obtain ⟨olds', rfl, ho⟩ := hsplit l' hl1
+      refine ⟨segs', gs2, olds', ?_, h2, h3, h4, ho, hl2, fun hh => by cases hh⟩
+      simp only [run, h1, ↓reduceIte, g1]
+
+/-! ### the hypotheses of the C16 theorems, and their decidable form -/
+
+/-- well-formedness of a call: what the C16 theorems assume.  `t` is the unfolding of the cell's adjacency
+    dictionary from `root`, `k` the number of frames within which every reachable segment's proximal resolves. -/
+structure Wf (cell : St) (cache : Option Adj) (root lim fuel k : Nat) (t : Tree) : Prop where
+  /-- no stale `adjacency_list` cache (known finding otherwise) -/
+  cache_fresh : FreshCache cell cache
+  /-- segment ids are distinct -/
+  ids_nodup : (cell.segs.map (·.id)).Nodup
+  /-- `t` unfolds the adjacency dictionary from the root ... -/
+  repr : Repr (adjacency cell.segs) t
+  root_eq : t.id = root
+  /-- ... and is a tree: no segment is reached twice -/
+  tree : (preorder t).Nodup
+  /-- model artefact: enough fuel -/
+  fuel_ok : need t ≤ fuel
+  /-- enough Python frames for the nesting of branch points and the proximal chains (known finding otherwise) -/
+  frames : nest t + k + 1 ≤ lim
+  /-- every reachable segment has a proximal: explicit, or implied through its ancestors within `k` frames -/
+  proximal : ∀ x ∈ preorder t, ∃ p, actualProximal cell.segs k x = .ok p
+  /-- no pre-existing group carries one of the names the call generates (known finding otherwise) -/
+  no_clash : ∀ g ∈ cell.groups, ∀ n ∈ newGroups cell.groups.length t, g.id ≠ n.id
+  /-- pre-existing groups have non-empty ids (`get_segment_group("")` raises) -/
+  ids_nonempty : ∀ g ∈ cell.groups, g.id ≠ ""
+
+theorem nodupB_iff : ∀ {l : List Nat}, nodupB l = true ↔ l.Nodup
+  | [] => by simp [nodupB]
+  | a :: l => by
+    simp only [nodupB, Bool.and_eq_true, Bool.not_eq_eq_eq_not, Bool.not_true, List.nodup_cons,
+      nodupB_iff (l := l)]
+    constructor
+    · rintro ⟨h1, h2⟩
+      exact ⟨by simpa using h1, h2⟩
+    · rintro ⟨h1, h2⟩
+      exact ⟨by simpa using h1, h2⟩
+
+theorem isOk_iff {ε α : Type} {e : Except ε α} : isOk e = true ↔ ∃ a, e = .ok a := by
+  cases e with
+  | ok a => simp [isOk]
+  | error _ => simp [isOk]
+
+/-- the driver's per-case flag `hyp` is sound: when it is `true` the theorems' hypotheses hold -/
+theorem hypB_sound {cell : St} {cache : Option Adj} {root lim fuel : Nat}
+    (h : hypB cell cache root lim fuel = true) : ∃ t k, Wf cell cache root lim fuel k t := by
+  unfold hypB at h
+  cases hb : buildTree (adjacency cell.segs) (cell.segs.length + 1) root with
+  | none => simp [hb] at h
+  | some t =>
+    simp only [hb, Bool.and_eq_true, decide_eq_true_eq, List.all_eq_true] at h
+    obtain ⟨⟨⟨hc, hids⟩, _⟩, ⟨⟨⟨⟨⟨ht, hl⟩, hf⟩, hap⟩, hcl⟩, hne⟩⟩ := h
+    obtain ⟨hr, hroot⟩ := buildTree_sound _ _ _ _ hb
+    refine ⟨t, lim - nest t - 1, ⟨?_, nodupB_iff.1 hids, hr, hroot, nodupB_iff.1 ht, hf, by omega, ?_, ?_, ?_⟩⟩
+    · left
+      cases cache with
+      | none => rfl
+      | some _ => simp at hc
+    · intro x hx
+      exact isOk_iff.1 (hap x hx)
+    · intro g hg n hn e
+      have := hcl g hg
+      simp only [Bool.not_eq_eq_eq_not, Bool.not_true, List.any_eq_false, beq_iff_eq] at this
+      exact this n hn e.symm
+    · intro g hg
+      simpa using hne g hg
+
+/-! ## E. what a `GoodChain` says about the cell -/
+
+/-- segment `c`'s parent is `p` -/
+def ParentOf (segs : List Seg) (p c : Nat) : Prop := ∃ s f, getSegment segs c = some s ∧ s.parent = some (p, f)
+
+/-- consecutive elements are related: a parent → child path -/
+def IsChain (R : Nat → Nat → Prop) : List Nat → Prop
+  | [] => True
+  | [_] => True
+  | a :: b :: l => R a b ∧ IsChain R (b :: l)
+
+theorem lookup_adjacency_some {segs : List Seg} {p : Nat} {cs : List Nat} (h : lookup (adjacency segs) p = some cs) :
+    childrenOf segs p = cs := by
+  rw [lookup_adjacency] at h
+  exact (enc_eq_some h).1.symm
+
+theorem lookup_adjacency_none {segs : List Seg} {p : Nat} (h : lookup (adjacency segs) p = none) :
+    childrenOf segs p = [] := by
+  rw [lookup_adjacency] at h
+  unfold enc at h
+  by_cases e : childrenOf segs p = []
+  · exact e
+  · simp [e] at h
+
+theorem parentOf_of_child {segs : List Seg} (hnd : (segs.map (·.id)).Nodup) {p c : Nat}
+    (h : c ∈ childrenOf segs p) : ParentOf segs p c := by
+  obtain ⟨s, hs, rfl, f, hp⟩ := mem_childrenOf.1 h
+  exact ⟨s, f, getSegment_of_mem_nodup hnd hs, hp⟩
+
+theorem GoodChain.isChain {segs : List Seg} (hnd : (segs.map (·.id)).Nodup) {ch : List Nat}
+    (h : GoodChain (adjacency segs) ch) : IsChain (ParentOf segs) ch := by
+  induction h with
+  | leaf _ => trivial
+  | branch _ => trivial
+  | @step i c l hl _ ih =>
+    refine ⟨parentOf_of_child hnd ?_, ih⟩
+    rw [lookup_adjacency_some hl]; simp
+
+theorem GoodChain.inner {segs : List Seg} {ch : List Nat} (h : GoodChain (adjacency segs) ch) :
+    ∀ a ∈ ch.dropLast, ∃ c, childrenOf segs a = [c] := by
+  induction h with
+  | leaf _ => intro a ha; simp at ha
+  | branch _ => intro a ha; simp at ha
+  | @step i c l hl _ ih =>
+    intro a ha
+    simp only [List.dropLast_cons_cons, List.mem_cons] at ha
+    rcases ha with rfl | ha
+    · exact ⟨c, lookup_adjacency_some hl⟩
+    · exact ih a ha
+
+theorem GoodChain.last {segs : List Seg} {ch : List Nat} (h : GoodChain (adjacency segs) ch) :
+    ∀ z, ch.getLast? = some z → childrenOf segs z = [] ∨ 2 ≤ (childrenOf segs z).length := by
+  induction h with
+  | leaf hl =>
+    intro z hz
+    simp only [List.getLast?_singleton, Option.some.injEq] at hz
+    subst hz
+    exact Or.inl (lookup_adjacency_none hl)
+  | branch hl =>
+    intro z hz
+    simp only [List.getLast?_singleton, Option.some.injEq] at hz
+    subst hz
+    right
+    rw [lookup_adjacency_some hl]; simp
+  | @step i c l _ _ ih =>
+    intro z hz
+    rw [List.getLast?_cons_cons] at hz
+    exact ih z hz
+
+theorem GoodChain.ne_nil {adj : Adj} {ch : List Nat} (h : GoodChain adj ch) : ch ≠ [] := by
+  cases h <;> simp
+
+/-- every new group's member list is a `GoodChain`; all but the first start at a child of a branch point -/
+theorem newGroups_good {adj : Adj} {G0 : Nat} {t : Tree} (hr : Repr adj t) {n : Group} (hn : n ∈ newGroups G0 t) :
+    GoodChain adj n.members ∧
+    ((∃ l, n.members = t.id :: l) ∨
+      ∃ h l p cs, n.members = h :: l ∧ p ∈ preorder t ∧ lookup adj p = some cs ∧ 2 ≤ cs.length ∧ h ∈ cs) := by
+  obtain ⟨_, _, hm⟩ := newGroups_members hn
+  rcases hm with hm | ⟨ch, hc, hm⟩
+  · rw [hm]
+    exact ⟨first_good t hr, Or.inl (first_cons t)⟩
+  · obtain ⟨h1, ⟨l, h2⟩, p, cs, hp, h3, h4, h5⟩ := rest_ok t hr ch hc
+    rw [hm]
+    exact ⟨h1, Or.inr ⟨ch.1, l, p, cs, h2, hp, h3, h4, h5⟩⟩
+
+theorem newGroups_flat (G0 : Nat) (t : Tree) : ((newGroups G0 t).map (·.members)).flatten = preorder t := by
+  have h : ∀ (chs : List (Nat × List Nat)) (L : Nat), ((mkFresh L chs).map (·.members)).flatten = flat chs := by
+    intro chs
+    induction chs with
+    | nil => intro L; simp [mkFresh, flat]
+    | cons x a ih => intro L; simp [mkFresh, flat, freshAt, ih (L + 1)]
+  simp only [newGroups, List.map_cons, List.flatten_cons, h]
+  exact first_rest_flat t
+
+/-- in a list of lists whose concatenation has no duplicates, an element of the concatenation lies in exactly
+    one of the lists -/
+theorem count_containing {x : Nat} : ∀ {ls : List (List Nat)}, ls.flatten.Nodup → x ∈ ls.flatten →
+    (ls.filter (fun l => decide (x ∈ l))).length = 1
+  | [], _, h => by simp at h
+  | l :: ls, hnd, hx => by
+    simp only [List.flatten_cons, List.nodup_append] at hnd
+    simp only [List.flatten_cons, List.mem_append] at hx
+    simp only [List.filter_cons]
+    by_cases hl : x ∈ l
+    · have : ls.filter (fun l => decide (x ∈ l)) = [] := by
+        rw [List.filter_eq_nil_iff]
+        intro l' hl' hxl'
+        have hxl' : x ∈ l' := by simpa using hxl'
+        exact hnd.2.2 x hl x (List.mem_flatten.2 ⟨l', hl', hxl'⟩) rfl
+      simp [hl, this]
+    · have hx' : x ∈ ls.flatten := by
+        rcases hx with h | h
+        · exact absurd h hl
+        · exact h
+      simp [hl, count_containing hnd.2.1 hx']
+
+theorem rel2_oldrel_false {gs gs' : List Group} (h : Rel2 (OldRel false) gs gs') : gs' = gs := by
+  induction h with
+  | nil => rfl
+  | cons hab _ ih => rw [hab.2 (Or.inl rfl), ih]
+
+theorem rel2_oldrel_ids {b : Bool} {gs gs' : List Group} (h : Rel2 (OldRel b) gs gs') :
+    gs'.map (·.id) = gs.map (·.id) := by
+  induction h with
+  | nil => rfl
+  | cons hab _ ih => simp [hab.1, ih]
+
+/-- the groups left by the call whose id did not exist before, and which carry the section NeuroLex id -/
+def newSectionGroups (cell cell' : St) : List Group :=
+  cell'.groups.filter (fun g => g.nlx == some sectionNlx && !cell.groups.any (fun o => o.id == g.id))
+
+theorem newSectionGroups_perm {cell cell' : St} {optimise : Bool} {olds' new : List Group}
+    (hold : Rel2 (OldRel optimise) cell.groups olds') (hperm : cell'.groups.Perm (olds' ++ new))
+    (hnew : ∀ n ∈ new, n.nlx = some sectionNlx ∧ ∀ g ∈ cell.groups, g.id ≠ n.id) :
+    (newSectionGroups cell cell').Perm new := by
+  unfold newSectionGroups
+  refine (hperm.filter _).trans ?_
+  rw [List.filter_append]
+  have h1 : olds'.filter (fun g => g.nlx == some sectionNlx && !cell.groups.any (fun o => o.id == g.id)) = [] := by
+    rw [List.filter_eq_nil_iff]
+    intro g hg
+    have : g.id ∈ olds'.map (·.id) := List.mem_map.2 ⟨g, hg, rfl⟩
+    rw [rel2_oldrel_ids hold] at this
+    obtain ⟨o, ho, e⟩ := List.mem_map.1 this
+    simp only [Bool.and_eq_true, beq_iff_eq, Bool.not_eq_eq_eq_not, Bool.not_true, List.any_eq_false, not_and]
+    intro _ hall
+    exact hall o ho e
+  have h2 : new.filter (fun g => g.nlx == some sectionNlx && !cell.groups.any (fun o => o.id == g.id)) = new := by
+    rw [List.filter_eq_self]
+    intro n hn
+    obtain ⟨e1, e2⟩ := hnew n hn
+    simp only [e1, beq_self_eq_true, Bool.true_and, Bool.not_eq_eq_eq_not, Bool.not_true, List.any_eq_false,
+      beq_iff_eq]
+    exact fun o ho => e2 o ho
+  rw [h1, h2]
+  exact .refl _
+
+theorem all_isOk {segs : List Seg} {k : Nat} {l : List Nat}
+    (h : l.all (fun x => isOk (actualProximal segs k x)) = true) : ∀ x ∈ l, ∃ p, actualProximal segs k x = .ok p := by
+  intro x hx
+  exact isOk_iff.1 (List.all_eq_true.1 h x hx)
 
 end NmlVerif.Section
